@@ -137,6 +137,8 @@ pub struct JobCtx {
     pub gate: Mutex<GateState>,
     pub gate_cv: Condvar,
     pub idle_ok: AtomicBool,
+    /// messages of the panics raised on this job's threads (filled by the process panic hook)
+    pub panics: Mutex<Vec<String>>,
 }
 
 impl JobCtx {
@@ -159,6 +161,7 @@ impl JobCtx {
             gate: Mutex::new(GateState::default()),
             gate_cv: Condvar::new(),
             idle_ok: AtomicBool::new(false),
+            panics: Mutex::new(Vec::new()),
         })
     }
 
@@ -407,6 +410,16 @@ pub fn install(c: Arc<JobCtx>) {
 pub fn uninstall() {
     renoir::verif::set_observer(None);
     *CTX.write() = None;
+}
+
+/// Called by the process-wide panic hook: remember the message in the job of the panicking thread.
+pub fn record_panic(msg: String) {
+    if let Some(c) = ctx() {
+        let mut p = c.panics.lock().unwrap();
+        if p.len() < 12 {
+            p.push(msg);
+        }
+    }
 }
 
 pub fn loc_str(l: Loc) -> String {
